@@ -37,6 +37,7 @@ class Cfg:
         self.meta = kw.get('meta', None)          # strategy for metadata list or None
         self.langs = kw.get('langs', st.sampled_from([None, 'python', 'c']))
         self.cell_inlines = kw.get('cell_inlines', ['t', 'em', 'code'])
+        self.heading_inlines = kw.get('heading_inlines', ['t', 'em', 'st', 'code'])
         self.lead = kw.get('lead', st.just(0))               # 0..3 blanks before ATX / list markers (same rendering)
         self.sublists = kw.get('sublists', False)            # list items may carry a nested list (['sublist', list, gap])
         self.refids = kw.get('refids', st.sampled_from(['ref1', 'Ref Two', 'r-3']))
@@ -115,7 +116,7 @@ def blocks(cfg, depth=None, max_n=None, top=True):
     if 'para' in kinds:
         p = st.tuples(st.lists(line, min_size=1, max_size=2), st.sampled_from(['nl', 'nl', '2sp', 'bs'])).map(lambda t: ['para', t[0], t[1]])
         opts += [p, p]
-    hinl = inlines(cfg, 1, False, 3, ['t', 'em', 'st', 'code'])
+    hinl = inlines(cfg, 1, False, 3, cfg.heading_inlines)
     if 'atx' in kinds:
         opts.append(st.tuples(st.integers(1, 6), hinl, st.booleans(), cfg.lead).map(lambda t: ['atx', t[0], t[1], t[2], t[3]]))
     if 'setext' in kinds:
